@@ -19,6 +19,9 @@ LATTICES = {
          135.0, 179.999, 180.0],
         [-10e3, -1.0, 0.0, 1.0, 100.0, 10e3, 400e3, 1000e3]),
 }
+# "any longitude": values outside [-180, 180] for the conversions that take a
+# longitude (start nodes geodetic and geocentric of the graph part)
+FAR_LONGITUDES = [-270.0, 270.0, 359.999, 360.0]
 
 # kind of a coordinate -> (tolerance, unit, compared modulo 360)
 KINDS = {
@@ -50,9 +53,10 @@ def conform(value, shape):
 
 def compare(values, reference, names, kinds, shape, where):
     """None or (key, expected, observed, msg) for the first coordinate that
-    is off by its tolerance or more (NaN counts as off)."""
+    is off by its tolerance or more (NaN counts as off). A kind is a name in
+    KINDS or a triple like its values with one tolerance per element."""
     for v, r, name, kind in zip(values, reference, names, kinds):
-        tol, unit, modulo = KINDS[kind]
+        tol, unit, modulo = KINDS[kind] if isinstance(kind, str) else kind
         arr = conform(v, shape)
         if arr is None:
             return ("%s/%s-shape" % (where, name), list(shape),
